@@ -19,6 +19,11 @@ CLAIMS={
    design="§3 C06, §2 R1/R6, Appendix C/D",
    note="Trusted: go/types+go/ssa; bank keeper moves exactly the coins it is given; GetDebt declared as non-persisting helper (guarded by C06-debt-source). Genesis import is out of scope.",
    technique="static analysis: symbolic delta extraction over go/ssa, linear normal forms, control-equivalence classes on success paths, provenance slices, call-graph summaries"),
+ "C08":dict(
+   text="Two linear invariants are decided for every consensus-reachable function: leveragelp Pool.LeveragedLpAmount − Σ Position.LeveragedLpAmount = 0 and Position.LeveragedLpAmount − shares committed at the position address = 0 (amm JoinPoolNoSwap result / ExitPool share argument, called with GetPositionAddress()). Deltas on the same success paths must cancel symbolically and updated records must reach their Set*/Destroy* call. Also decided on all paths: DestroyPosition exactly on the amount == 0 edge after the update (SetPosition otherwise); who may write the open-position counter and that +1/−1 are paired with storing/deleting the position; a pool record handed to a persisting callee is fresh (not cached across loop iterations); the third-party closes run ForceCloseLong on a CacheContext written only under err == nil. Necessary structural conditions of the sums, not the sums themselves.",
+   design="§3 C08, §2 R1/R2/R6",
+   note="Trusted: go/types+go/ssa; amm JoinPoolNoSwap/ExitPool commit/uncommit exactly the shares they return/receive (lemmas J/E, decided under C02 when built); MigrateData is upgrade-only and outside the subject set.",
+   technique="static analysis: symbolic delta cancellation over go/ssa, must-hold facts, record-freshness dataflow with persists-parameter summaries, cache-context isolation shape check"),
 }
 NA={}
 checks=[]
